@@ -502,6 +502,12 @@ class Gen:
             f["body"] = seq(body + [("SReturn", self.expr(f, cal, [], 1))])
             funs.append(f)
             self.W, self.U = summarize(funs)
+        for i, f in enumerate(funs):
+            if f["vis"] == "External" and RANK[f["mut"]] <= 1 and r.random() < 0.7:
+                hs = [j for j in range(1, i) if funs[j]["vis"] == "Internal" and self.callable(f, j, ())]
+                if hs:
+                    f["body"] = ("SSeq", ("SAug", "VLocal", 1, ("ECall", r.choice(hs), ("EVar", "VArg", 0))), f["body"])
+        self.W, self.U = summarize(funs)
         c = funs[0]
         cb = [("SAssign", "VImm", 0, ("ELit", 5))] + self.stmts(c, [], [], 1, r.choice([0, 1]))
         c["body"] = seq(cb)
@@ -661,6 +667,25 @@ def stmt_violations(f, prog, fi, loops, arrays, W):
         out.append(("iterator_mutation_whole", ("SForList", i, ak, ARR, 3, ("SAssign", ak, ARR, a, "whole"))))
         out.append(("iterator_mutation_pop", ("SForList", i, ak, DARR, 4, ("SAssign", ak, DARR, a, "pop"))))
         out.append(("iterator_mutation_append", ("SForList", i, ak, DARR, 4, ("SIf", arg, ("SAssign", ak, DARR, a, "append"), ("SSkip",)))))
+        if i < 2:
+            # mutate the OUTER iterator from inside a NESTED list loop (inner loop over a different array)
+            for (ox, oln), (ix, iln) in (((DARR, 4), (ARR, 3)), ((ARR, 3), (DARR, 4))):
+                inner_k = "VLocal"
+                for style, mut_stmt in (("elem", ("SAssign", ak, ox, a) if ox == ARR else None), ("whole", ("SAssign", ak, ox, a, "whole") if ox == ARR else None),
+                                        ("pop", ("SAssign", ak, ox, a, "pop") if ox == DARR else None), ("append", ("SAssign", ak, ox, a, "append") if ox == DARR else None)):
+                    if mut_stmt is None:
+                        continue
+                    if ak == "VLocal" and ix == ox:
+                        continue
+                    out.append((f"iterator_outer_mutation_nested_{style}",
+                                ("SForList", i, ak, ox, oln, ("SForList", i + 1, inner_k, ix, iln, mut_stmt))))
+            if m >= 2 and not lib:
+                for ax, ln in ((ARR, 3), (DARR, 4)):
+                    cs = [j for j in range(1, len(funs)) if j != fi and funs[j]["vis"] == "Internal" and ("VStorage", ax) in W.get(j, ())]
+                    for j in cs[:1]:
+                        out.append(("iterator_outer_mutation_nested_via_call",
+                                    ("SForList", i, "VStorage", ax, ln, ("SForList", i + 1, "VLocal", ARR if ax == DARR else DARR, 3 if ax == DARR else 4,
+                                                                          ("SAssign", "VLocal", 0, ("ECall", j, arg))))))
         if m >= 2 and not lib:
             # through an internal call: some callee (transitively) writes the iterated storage array
             for ax, ln in ((ARR, 3), (DARR, 4)):
@@ -696,6 +721,29 @@ def _is_return_root(body, path):
     return False
 
 
+BUILTIN_RULES = {"view_send", "view_selfdestruct", "view_raw_log", "view_create_minimal", "view_create_copy", "view_raw_call",
+                 "view_raw_call_value", "view_raw_call_delegate"}
+
+
+def reachable(funs, roots):
+    seen, todo = set(), list(roots)
+    while todo:
+        i = todo.pop()
+        if i in seen or i >= len(funs):
+            continue
+        seen.add(i)
+        todo += callees(funs[i]["body"])
+    return seen
+
+
+def reachable_from_constant_externals(funs):
+    return reachable(funs, [i for i, f in enumerate(funs) if f["vis"] == "External" and RANK[f["mut"]] <= 1])
+
+
+def reachable_from_entry(funs):
+    return reachable(funs, [i for i, f in enumerate(funs) if f["vis"] in ("External", "Ctor")])
+
+
 def mutants(prog, rnd, per_prog):
     """single-rule violations of a valid program: list of (rule, where, program)"""
     funs = prog["funs"]
@@ -726,6 +774,10 @@ def mutants(prog, rnd, per_prog):
             pref = [c for c in pool if c[2] == "expr" and funs[c[1]]["vis"] == "External" and _in_return(funs[c[1]]["body"], c[3])]
             top = [c for c in pref if _is_return_root(funs[c[1]]["body"], c[3])]
             pool = top or pref or pool
+        if rule in BUILTIN_RULES and rnd.random() < 0.8:
+            reach = reachable_from_constant_externals(funs)
+            pref = [c for c in pool if funs[c[1]]["vis"] == "Internal" and c[1] in reach]
+            pool = pref or pool
         _, fi, kind, path, bad, loops = rnd.choice(pool)
         f2 = [dict(f) for f in funs]
         body = f2[fi]["body"]
